@@ -1,4 +1,4 @@
-From SV Require Import Model.Common Model.ConfigTemplate Model.ConfigExtractor Model.Config.
+From SV Require Import Model.Common Model.ConfigTemplate Model.ConfigExtractor Model.Config Model.ConfigHolder Model.ConfigCases.
 From Coq Require Import ExtrOcamlBasic.
 Definition run_line_model := run_line run_case_C16.
 Extraction "model.ml" run_line_model.
